@@ -10,6 +10,7 @@
 #include <QSslSocket>
 #include <QTcpSocket>
 #include <QThread>
+#include <unistd.h>
 #include <qhttpengine/handler.h>
 #include <qhttpengine/middleware.h>
 #include <qhttpengine/server.h>
@@ -26,6 +27,12 @@ public:
 protected:
     void process(Socket *socket, const QString &) override
     {
+        if (socket->rawPath() == "/big") {
+            // a response much larger than the kernel's socket buffers
+            socket->write(QByteArray(64 * 1024 * 1024, 'x'));
+            socket->close();
+            return;
+        }
         obs->append("pr:0:" + hx(socket->rawPath()));
         socket->write("ok");
         socket->close();
@@ -54,13 +61,42 @@ void pump(int ms = 1500)
 void runTls(const Scn &scn, Out &out)
 {
     QStringList *obs = &out.obs;
-    bool tls = false;
+    bool tls = false, nocert = false;   // nocert: a TLS configuration whose certificate chain is empty
     QString kind; QByteArray payload;
     foreach (const QString &t, scn.toks) {
         QStringList p = t.split(':');
         if (p[0] == "tls") tls = true;
         else if (p[0] == "plain") tls = false;
+        else if (p[0] == "nocert") nocert = true;
         else if (p[0] == "raw" || p[0] == "ssl") { kind = p[0]; payload = unhx(p[1]); }
+    }
+    if (scn.toks.contains("stall")) {
+        // one client asks for a huge response and never reads it; handling that request must not
+        // keep the (single-threaded) engine from serving the next client
+        alarm(25);                                   // a blocked event loop ends the process: `hang`
+        LogHandler h(obs);
+        Server *srv = new Server(&h);
+        srv->listen(QHostAddress::LocalHost, 0);
+        QTcpSocket a;
+        a.setReadBufferSize(1);
+        a.connectToHost(QHostAddress::LocalHost, srv->serverPort());
+        a.waitForConnected(1000);
+        a.write("GET /big HTTP/1.1\r\n\r\n"); a.flush();
+        pump(800);
+        QTcpSocket b;
+        b.connectToHost(QHostAddress::LocalHost, srv->serverPort());
+        b.waitForConnected(1000);
+        b.write("GET /small HTTP/1.1\r\n\r\n"); b.flush();
+        pump(1500);
+        QByteArray got = b.readAll();
+        *obs << QString("x:43:%1").arg(got.startsWith("HTTP/1.0 200") ? "01" : "00");
+        out.obs << "end";
+        alarm(0);
+        QStringList sink; h.obs = &sink;
+        a.abort(); b.abort();
+        delete srv;
+        pump(100);
+        return;
     }
     if (kind == "raw") urlOracle(payload, out);
     else urlOracle("GET " + payload + " HTTP/1.1\r\n\r\n", out);
@@ -75,7 +111,7 @@ void runTls(const Scn &scn, Out &out)
         QSslKey key(&keyFile, QSsl::Rsa);
         QSslConfiguration config;
         config.setPrivateKey(key);
-        config.setLocalCertificateChain(QSslCertificate::fromPath(QString(REPO_DIR_STR) + "/tests/cert.pem"));
+        if (!nocert) config.setLocalCertificateChain(QSslCertificate::fromPath(QString(REPO_DIR_STR) + "/tests/cert.pem"));
         server->setSslConfiguration(config);
     }
     server->listen(QHostAddress::LocalHost, 0);
